@@ -11,7 +11,7 @@ from . import eqcommon as E
 PROP = "C05"
 RULE = ("list(vf2pp_all_isomorphisms(g1, g2, atom_labels, stereo, stereo_change)) for all ordered pairs of bounded universes "
         "(all labelled MolGraphs n<=3, labelled n=4 x representatives [thorough: all], stereo stars / two-unit graphs with stereo in "
-        "{False, True}, stereo reaction graphs with stereo_change=True, second graph under other identifiers), label modes "
+        "{False, True}, stereo reaction graphs with stereo_change=True, second graph under other identifiers), label modes (incl. caller labels -1 / -2, whose hashes coincide) "
         "{default, element dict, all-equal, degree, mismatching}, symmetric graphs up to 14 atoms against themselves and a "
         "relabelled copy; topological_symmetry_number of every fully specified stereo graph.  Oracle: the set of valid bijections "
         "found by brute-force backtracking with the same labels: every yielded mapping valid, none missing, none twice.  "
@@ -21,7 +21,7 @@ ASSUMPTIONS = ["full-graph mode only (subgraph=False)",
                "not part of what this function is given (they are C02's business via ==)"]
 BUDGET = {"quick": 600, "thorough": 1800}
 MG, SMG, CRG, SCRG = RG.MG, RG.SMG, RG.CRG, RG.SCRG
-MODES = ("default", "elements", "all-equal", "degree", "mismatch")
+MODES = ("default", "elements", "all-equal", "degree", "mismatch", "colliding", "tuple-colliding")
 
 
 @lru_cache(None)
@@ -70,6 +70,15 @@ def labels_for(mode, a, b):
         return ({x: 0 for x in a.atoms}, {x: 0 for x in b.atoms})
     if mode == "degree":
         return ({x: len(a.nbrs(x)) for x in a.atoms}, {x: len(b.nbrs(x)) for x in b.atoms})
+    if mode in ("colliding", "tuple-colliding"):
+        # caller labels whose Python hashes coincide although they differ: -1 / -2 (formal charges), also inside tuples
+        def lab(g):
+            out = {}
+            for i, x in enumerate(sorted(g.atoms, key=lambda y: (len(g.nbrs(y)), g.atoms[y]["atom_type"], repr(y)))):
+                v = -1 - (i % 2)
+                out[x] = v if mode == "colliding" else (g.atoms[x]["atom_type"], v)
+            return out
+        return (lab(a), lab(b))
     if mode == "mismatch":
         return ({x: 0 for x in a.atoms}, {x: 1 for x in b.atoms})
     raise KeyError(mode)
